@@ -165,6 +165,7 @@ def build_case(ir, en, ep_index, parsed, info, rng, mode, rtlen):
     compared = []
     uniforms = info.get("Uniforms") or []
     declared = {b["name"] for b in parsed["meta"]["blocks"]}
+    readonly = {b["name"] for b in parsed["meta"]["blocks"] if b["readonly"]}
     for gi, g in enumerate(ir["GlobalVariables"]):
         sp = spaces[g["Space"]]
         if sp in ("SpaceStorage", "SpaceUniform"):
@@ -175,7 +176,7 @@ def build_case(ir, en, ep_index, parsed, info, rng, mode, rtlen):
             blk = block_of_global(uniforms, g)
             if blk is not None and blk in declared:
                 buffers[blk] = v
-                if sp == "SpaceStorage":
+                if sp == "SpaceStorage" and blk not in readonly:
                     compared.append((gi, blk))
         else:
             glob_vals.append(None)
